@@ -29,6 +29,7 @@ ASSUMPTIONS = [
 ]
 SHARDS = {"quick": 8, "thorough": 16}
 MIN_REACH = {
+    "resown_after_a_farmer_constant_was_changed": {"quick": 6, "thorough": 80},
     "pipelines_compared": {"quick": 120, "thorough": 1200},
     "harvester_files_compared": {"quick": 15, "thorough": 300},
     "sampler_tables_compared": {"quick": 10, "thorough": 200},
@@ -68,7 +69,9 @@ def cases(ctx):
              "engine": rng.choice(["h5netcdf", "joblib"]), "has_ext": rng.random() < 0.5,
              "n_samples": rng.randint(1, 9), "rseed": rng.randint(0, 10 ** 9), "idx": i,
              # "another session": the crop (and its farmer) is re-created by name and the work is sown AGAIN from it
-             "resow_reloaded": rng.random() < 0.3}
+             "resow_reloaded": rng.random() < 0.3,
+             # a constant of the farmer is changed after the first sow and the crop is sown again with the same object
+             "tweak_then_resow": rng.random() < 0.2}
         if c["fresh"]:
             c["to_df"] = False        # the fresh-process reaper uses Crop.reap(), which returns the Dataset
         r = rng.random()
@@ -191,6 +194,17 @@ def run_case(ctx, case):
             else:
                 shuffle_at_sow = case["shuffle"] if (w["mode"] == "grid" or w.get("via") == "sow_combos") and case["shuffle"] else None
                 cropkit.sow(crop, w, shuffle_at_sow=shuffle_at_sow)
+            if case.get("tweak_then_resow") and not case.get("resow_reloaded"):
+                # the documented "tweak a constant and sow again" on the same Crop object; both sides get the new value
+                for fobj in (f1, f2):
+                    rr = fobj if isinstance(fobj, xyzpy.Runner) else fobj.runner
+                    rr.constants = {**dict(rr._constants), "ktweak": 9 + case["rseed"] % 5}
+                if farmer == "sampler":
+                    np.random.seed(case["rseed"] % (2 ** 32))
+                    crop.sow_samples(case["n_samples"], verbosity=0)
+                else:
+                    cropkit.sow(crop, w, shuffle_at_sow=shuffle_at_sow)
+                ctx.count("resown_after_a_farmer_constant_was_changed")
             if case.get("resow_reloaded"):
                 crop = xyzpy.Crop(name=name, parent_dir=tmp)        # farmer un-pickled from the settings file
                 if case["shuffle"]:
@@ -307,6 +321,8 @@ def run_case(ctx, case):
     if err1 is None and isinstance(out1, xr.Dataset) and not bad and case["descr"] != "dataset":
         req = cropkit.requested_settings(w)
         extra = {**case["resources"], **case["constants"], **w["constants"]}
+        if case.get("tweak_then_resow") and not case.get("resow_reloaded"):
+            extra = {**case["resources"], **case["constants"], "ktweak": 9 + case["rseed"] % 5, **w["constants"]}
         if ver is not None:
             extra["version"] = ver
         if case["descr"] == "yz_const":
